@@ -156,14 +156,15 @@ class FilesystemRegistry(AbstractRegistry):
         return ["*.{}".format(extension) for extension in self._extensions]
 
     def __iter__(self):
+        seen = set()  # a plasmid stored under several extensions is one key
         for f in self.fs.filterdir("/", files=self._files, exclude_dirs=["*"]):
             name, _ = splitext(f.name)
-            yield name
+            if name not in seen:
+                seen.add(name)
+                yield name
 
     def __len__(self):
-        return sum(
-            1 for _ in self.fs.filterdir("/", files=self._files, exclude_dirs=["*"])
-        )
+        return sum(1 for _ in self)
 
     def __getitem__(self, item):
         if "/" in item:  # keys are stems of the files of the root directory
